@@ -288,7 +288,7 @@ def _criteria_args(rng, params):
                 for _ in range(rng.randint(0, 2))]
     names = ['K0', 'K1', 'K2', 'K3']
     containers = {n: NS(restriction_criteria=crit_list(), inheritors=[]) for n in names}
-    top = NS(restriction_criteria=crit_list(), inheritors=[rng.choice(names) for _ in range(rng.randint(0, 4))])
+    top = NS(restriction_criteria=crit_list(), inheritors=[rng.choice(names) for _ in range(rng.randint(1, 4))])
     out = []
     for p in params:
         if p == 'packet':
@@ -298,7 +298,7 @@ def _criteria_args(rng, params):
         elif p == 'containers':
             out.append(containers)
         elif p == 'i':
-            out.append(rng.randint(0, max(0, len(top.inheritors))))
+            out.append(rng.randint(0, len(top.inheritors) - 1))
         elif p == 'a':
             out.append(tree('and', rng.randint(0, 3)))
         elif p == 'o':
